@@ -7,6 +7,7 @@ import (
 	"sort"
 	"strings"
 	"testing"
+	"time"
 
 	"github.com/lni/dragonboat/v4/internal/vfhelp"
 	"pgregory.net/rapid"
@@ -98,10 +99,19 @@ func runE6(t *testing.T, prof e6Profile) {
 		if data, err := json.MarshalIndent(p, "", " "); err == nil {
 			_ = os.WriteFile("artefact-current-plan.json", data, 0o644)
 		}
+		began := time.Now()
 		res := RunPlan(p)
+		ranFor := time.Since(began)
 		res.CheckLinearizable()
 		res.CheckStreams()
 		res.Cluster.Close()
+		if total := time.Since(began); total > 90*time.Second {
+			// kept for diagnosis: a case this slow eats the time budget of its shard
+			if data, err := json.MarshalIndent(map[string]interface{}{"plan": p, "flags": res.Flags, "run_seconds": ranFor.Seconds(), "total_seconds": total.Seconds()}, "", " "); err == nil {
+				_ = os.WriteFile(fmt.Sprintf("artefact-slow-case-%d.json", time.Now().UnixNano()), data, 0o644)
+			}
+			st.Count("slow-case-over-90s", 1)
+		}
 		canon, _ := json.Marshal(p)
 		foreign := 0
 		for _, v := range res.AllViolations() {
